@@ -385,7 +385,7 @@ func (r *runner) repoModels(reps int) {
 			continue
 		}
 		n++
-		r.judge(gens, &input{Text: string(b)}, reps, "repo:tests/"+filepath.Base(f))
+		r.submit(gens, &input{Text: string(b)}, reps, "repo:tests/"+filepath.Base(f), nil)
 		r.c.Hist("stream:repo-sysl")
 	}
 }
